@@ -29,9 +29,10 @@ pub fn case(ctx: &Ctx, idx: u64) -> CaseOut {
         crate::gen::Profile::NonMetric,
         crate::gen::Profile::Mixed,
     ]);
-    let max_dep = if ctx.thorough() { *rng.pick(&[6, 10, 16]) } else { *rng.pick(&[4, 7, 10]) };
+    let max_dep = if ctx.thorough() { *rng.pick(&[6, 10, 16]) } else { *rng.pick(&[5, 8, 12]) };
     let mut opts = crate::gen::GenOpts::new(profile, max_dep);
     opts.force_slots = rng.chance(5, 6);
+    opts.rotation_rich = rng.chance(2, 3);
     let tag = format!("p{}c{}", ctx.seed, idx);
     let input = crate::gen::generate(&mut rng, &opts, &tag);
     let inst0 = refmodel::Inst::parse(&input).expect("reference model cannot parse generated instance");
@@ -99,6 +100,11 @@ pub fn case(ctx: &Ctx, idx: u64) -> CaseOut {
     };
     let differs = (0..inst.types.len()).any(|t| tstar[t].canonical() != s1.transitions[t].canonical());
     out.count("runs_where_optimiser_changed_cycles", differs as u64);
+    if differs {
+        out.count(&format!("optimiser_changed_cycles.profile.{}", profile.name()), 1);
+    }
+    let multi_cycle_types = (0..inst.types.len()).filter(|&t| s1.transitions[t].cycles.iter().filter(|c| !c.members.is_empty()).count() >= 2).count();
+    out.count("runs_with_a_type_having_two_or_more_cycles", (multi_cycle_types > 0) as u64);
     if s2.vehicles != s1.vehicles {
         out.viol("C16", "optimised.tours_changed", "setting the optimised transitions changed tours".to_string());
     }
